@@ -478,7 +478,7 @@ class FileCache:
 
                     if not valid_entry:
                         # remove the locally stored entry if not valid
-                        os.remove(filepath)
+                        self._remove_item_from_cache(hashkey)
                     else:
                         valid_entry = True
                 else:
